@@ -104,7 +104,7 @@ V("c17-getitem-deleted-raises", "C17", DB, "            if val is not DELETED:\n
 V("c17-do-deletes-ignored", "C17", DB, "                elif do_deletes:\n                    self.wrapped_db.pop(key, None)", "                else:\n                    self.wrapped_db.pop(key, None)", rule="PROV12")
 V("c17-contains-ignores-marker", "C17", DB, "        if key in self.cache and self.cache[key] is not DELETED:\n            return True", "        if key in self.cache:\n            return True", rule="ABS7")
 V("c17-silent-equivalent-rewrite", "C17", DB, "        try:\n            yield\n        except Exception as exc:\n            raise exc\n        else:\n            for key, value in self.cache.items():\n                if value is not DELETED:\n                    self.wrapped_db[key] = value\n                elif do_deletes:\n                    self.wrapped_db.pop(key, None)\n                # if do_deletes is False, ignore deletes to underlying db\n        finally:\n            self.cache = {}",
-  "        try:\n            yield\n        except Exception:\n            self.cache = {}\n            raise\n        try:\n            for key, value in self.cache.items():\n                if value is not DELETED:\n                    self.wrapped_db[key] = value\n                elif do_deletes:\n                    self.wrapped_db.pop(key, None)\n        finally:\n            self.cache = {}", expect="silent", props=["C17", "C05", "C04"])
+  "        try:\n            yield\n        except BaseException:\n            self.cache = {}\n            raise\n        try:\n            for key, value in self.cache.items():\n                if value is not DELETED:\n                    self.wrapped_db[key] = value\n                elif do_deletes:\n                    self.wrapped_db.pop(key, None)\n        finally:\n            self.cache = {}", expect="silent", props=["C17", "C05", "C04"])
 # --- C04 AL4 -----------------------------------------------------------------------
 V("c04-at-root-prune-true", "C04", HX, "snapshot = type(self)(self.db, at_root_hash, prune=False)", "snapshot = type(self)(self.db, at_root_hash, prune=True)", rule="AL4")
 V("c04-silent-at-root-prune-flag", "C04", HX, "snapshot = type(self)(self.db, at_root_hash, prune=False)", "snapshot = type(self)(self.db, at_root_hash, prune=self.is_pruning)", expect="silent")
@@ -301,3 +301,6 @@ V("c16-keypath-flag-drop-2", "C16", BI, "    if path[0] == 1:\n        path = pa
 V("c16-exp-lsb-first", "C16", "trie/constants.py", "EXP = tuple(reversed(tuple(2**i for i in range(8))))", "EXP = tuple(2**i for i in range(8))", rule="SIB7b")
 V("c16-keypath-prefix-swapped", "C16", BI, "    if len(padded_bin) % 8 == 4:\n        return decode_from_bin(PREFIX_00 + prefix + padded_bin)\n    else:\n        return decode_from_bin(PREFIX_100000 + prefix + padded_bin)", "    if len(padded_bin) % 8 == 4:\n        return decode_from_bin(PREFIX_100000 + prefix + padded_bin)\n    else:\n        return decode_from_bin(PREFIX_00 + prefix + padded_bin)", rule="SIB7b")
 V("c16-silent-keypath-local", "C16", BI, "    return path[4 + ((4 - padded_len) % 4) :]", "    skip = 4 + ((4 - padded_len) % 4)\n    return path[skip:]", expect="silent")
+
+V("c17-reset-only-for-exception", "C17", DB, "        try:\n            yield\n        except Exception as exc:\n            raise exc\n        else:\n            for key, value in self.cache.items():\n                if value is not DELETED:\n                    self.wrapped_db[key] = value\n                elif do_deletes:\n                    self.wrapped_db.pop(key, None)\n                # if do_deletes is False, ignore deletes to underlying db\n        finally:\n            self.cache = {}",
+  "        try:\n            yield\n        except Exception:\n            self.cache = {}\n            raise\n        try:\n            for key, value in self.cache.items():\n                if value is not DELETED:\n                    self.wrapped_db[key] = value\n                elif do_deletes:\n                    self.wrapped_db.pop(key, None)\n        finally:\n            self.cache = {}", rule="ORD4")
